@@ -15,6 +15,7 @@ func init() { register("C05", checkC05) }
 
 func checkC05(r *Result) {
 	P := r.P
+	defer checkLostUpdates(r, "C05")
 	r.Explanation = "Pairing rules between the two ledgers the repository mutates outside x/staking's own messages, decided on SSA: the only callers of the staking keeper's Delegate / Unbond / SetUnbondingDelegation / RemoveUnbondingDelegation are the known sites in x/reporter/keeper; every Delegate(..., subtractAccount=false) is paired, in its handler or its unique caller chain in the dispute module, with a module-to-pool transfer of the same amount value into the pool that agrees with the tokenSrc argument (tokenSrc Bonded with the bonded pool; a validator-status tokenSrc only under the path fact that the validator is bonded); every Unbond is followed by a pool-to-dispute transfer of the amount Unbond returned, out of the pool chosen from the validator's status; the direct edit of unbonding entries moves exactly the accumulated removed amount out of the not-bonded pool; and the per-backer fee record stores the amounts Unbond returned and their sum."
 	r.NotDecided = "pool balance >= ledger total over all histories, positive shares, x/staking's own invariants, rounding between shares and tokens"
 	r.Assumptions = []string{"x/staking Delegate with subtractAccount=false moves tokens between pools exactly as its tokenSrc / validator-status table says", "x/bank module-to-module sends move exactly the coins given"}
